@@ -342,36 +342,50 @@ Check C26_results_no_restore :
       results_ok prog noeq pfam fams lru0 NF sfuel fuel (pinit iv idur lru0) ops.
 Print Assumptions C26_results_no_restore.
 
-(* (P2) restore after snapshot re-establishes the invariant in the fresh database, when the
-   persisted functions only call persisted functions (no dependency is flattened away): from
-   ANY state that satisfies the invariant (PInvTop.OK: there are ghost histories of inputs and
-   durabilities for which PInv.DInv holds) with no query in flight.  The revision rewind is
-   sound: the inputs come back with their stamps.  If the external state is the one the snapshot
-   saw the restored database is ready for requests (PTop.state_ok false), otherwise it is after
-   a new revision (PTop.state_ok true). *)
+(* (P2) restore after snapshot re-establishes the invariant in the fresh database, from ANY state
+   that satisfies the invariant (PInvTop.OK: there are ghost histories of inputs and durabilities
+   for which PInv.DInv holds) with no query in flight, in two settings:
+   - the persisted functions only call persisted functions (nothing is flattened away), all
+     durabilities;
+   - FLAT MODE (fm = true: all durabilities LOW): every program, every choice of persisted
+     functions; the dependencies that the snapshot flattened away — to any depth — become
+     observers at the revisions their memos were verified at (PInv.good), and the restored memo
+     is covered by its serialised edges.
+   The revision rewind is sound: the inputs come back with their stamps.  If the external state
+   is the one the snapshot saw the restored database is ready for requests (PTop.state_ok false),
+   otherwise it is after a new revision (PTop.state_ok true). *)
 Theorem C26_restore_reestablishes_invariant :
-  forall (prog : qkey -> body) (pfam : N -> bool) (lru0 : N -> lru_state) (NF sfuel : nat),
-    persisted_closed prog pfam ->
+  forall (prog : qkey -> body) (pfam : N -> bool) (lru0 : N -> lru_state) (rank : qkey -> nat)
+         (NF sfuel : nat) (fm : bool),
+    calls_below prog rank ->
+    persisted_closed prog pfam \/ (fm = true /\ forall p, (S (rank p) < sfuel)%nat) ->
     forall s ext : db,
       d_stack s = [] ->
-      (PInvTop.OK_d prog NF s ->
-       PTop.state_ok prog NF true (restore (Model.snapshot pfam sfuel s) ext lru0)) /\
-      (PInvTop.OK prog NF s -> d_cell ext = d_cell s ->
-       PTop.state_ok prog NF false (restore (Model.snapshot pfam sfuel s) ext lru0)).
+      (PInvTop.OK_d prog NF fm s ->
+       PTop.state_ok prog NF fm true (restore (Model.snapshot pfam sfuel s) ext lru0)) /\
+      (PInvTop.OK prog NF fm s -> d_cell ext = d_cell s ->
+       PTop.state_ok prog NF fm false (restore (Model.snapshot pfam sfuel s) ext lru0)).
 Proof.
-  intros prog pfam lru0 NF sfuel Hc s ext Hst. split.
-  - intros Hok. exact (PTop.restore_ok prog pfam lru0 NF sfuel Hc s ext Hok Hst).
-  - intros Hok He. exact (PTop.restore_ok_clean prog pfam lru0 NF sfuel Hc s ext Hok Hst He).
+  intros prog pfam lru0 rank NF sfuel fm Hrank Hc s ext Hst.
+  assert (G : PTop.restore_good prog pfam lru0 NF sfuel fm).
+  { destruct Hc as [Hc | [Hf Hs]].
+    - exact (PTop.restore_good_closed prog pfam lru0 NF sfuel fm Hc).
+    - exact (PTop.restore_good_flat prog pfam lru0 rank (PSem.calls_below_tb prog rank Hrank) NF sfuel fm Hf Hs). }
+  split.
+  - intros Hok. exact (proj1 G s ext Hok Hst).
+  - intros Hok He. exact (proj2 G s ext Hok Hst He).
 Qed.
 Check C26_restore_reestablishes_invariant :
-  forall (prog : qkey -> body) (pfam : N -> bool) (lru0 : N -> lru_state) (NF sfuel : nat),
-    persisted_closed prog pfam ->
+  forall (prog : qkey -> body) (pfam : N -> bool) (lru0 : N -> lru_state) (rank : qkey -> nat)
+         (NF sfuel : nat) (fm : bool),
+    calls_below prog rank ->
+    persisted_closed prog pfam \/ (fm = true /\ forall p, (S (rank p) < sfuel)%nat) ->
     forall s ext : db,
       d_stack s = [] ->
-      (PInvTop.OK_d prog NF s ->
-       PTop.state_ok prog NF true (restore (Model.snapshot pfam sfuel s) ext lru0)) /\
-      (PInvTop.OK prog NF s -> d_cell ext = d_cell s ->
-       PTop.state_ok prog NF false (restore (Model.snapshot pfam sfuel s) ext lru0)).
+      (PInvTop.OK_d prog NF fm s ->
+       PTop.state_ok prog NF fm true (restore (Model.snapshot pfam sfuel s) ext lru0)) /\
+      (PInvTop.OK prog NF fm s -> d_cell ext = d_cell s ->
+       PTop.state_ok prog NF fm false (restore (Model.snapshot pfam sfuel s) ext lru0)).
 Print Assumptions C26_restore_reestablishes_invariant.
 
 (* (P3) C26_results_full_statement with ONE more hypothesis, persisted_closed: histories with
@@ -402,11 +416,39 @@ Check C26_results_partial :
       results_ok prog noeq pfam fams lru0 NF sfuel fuel (pinit iv idur lru0) ops.
 Print Assumptions C26_results_partial.
 
+(* (P3') C26_results_full_statement for EVERY program and EVERY choice of persisted functions —
+   dependencies flattened away to any depth, repeated snapshot/restore rounds, LRU eviction,
+   untracked reads, injected panics — when all durabilities are LOW (the default: inputs are
+   created LOW, writes keep or install LOW, synthetic writes are LOW).  Against the FIXED
+   flattening (a dependency without memo is kept as an edge).  Non-vacuity:
+   Examples.ex_flat_results, ex_f4_results. *)
+Theorem C26_results_low :
+  forall (prog : qkey -> body) (noeq : qkey -> bool) (pfam : N -> bool) (fams : list N)
+         (lru0 : N -> lru_state) (rank : qkey -> nat),
+    calls_below prog rank -> forall NF : nat, (forall q, (rank q < NF)%nat) ->
+    forall fuel sfuel : nat, (forall p, (rank p < fuel)%nat) -> (forall p, (S (rank p) < sfuel)%nat) ->
+    forall (iv : ikey -> val) (ops : list op),
+      Forall low_op ops -> wf_ops false false ops ->
+      known_class_free prog noeq pfam fams lru0 sfuel fuel (pinit iv (fun _ => 0) lru0) ops ->
+      results_ok prog noeq pfam fams lru0 NF sfuel fuel (pinit iv (fun _ => 0) lru0) ops.
+Proof. exact PTop.results_low. Qed.
+Check C26_results_low :
+  forall (prog : qkey -> body) (noeq : qkey -> bool) (pfam : N -> bool) (fams : list N)
+         (lru0 : N -> lru_state) (rank : qkey -> nat),
+    calls_below prog rank -> forall NF : nat, (forall q, (rank q < NF)%nat) ->
+    forall fuel sfuel : nat, (forall p, (rank p < fuel)%nat) -> (forall p, (S (rank p) < sfuel)%nat) ->
+    forall (iv : ikey -> val) (ops : list op),
+      Forall low_op ops -> wf_ops false false ops ->
+      known_class_free prog noeq pfam fams lru0 sfuel fuel (pinit iv (fun _ => 0) lru0) ops ->
+      results_ok prog noeq pfam fams lru0 NF sfuel fuel (pinit iv (fun _ => 0) lru0) ops.
+Print Assumptions C26_results_low.
+
 (* non-vacuity of the three theorems: a persisted-closed program with a write of durability
    HIGH, a snapshot, a write that the restore undoes, a restore, a write to a leaf of a restored
    memo — the hypotheses hold and the requests return what the theorem says; a history without
-   restore over the partial_query program (the snapshot flattens); and, computed only (not an
-   instance of a theorem), restore + a later write to a FLATTENED leaf over partial_query *)
+   restore over the partial_query program (the snapshot flattens); restore + a later write to a
+   FLATTENED leaf of the restored memo over partial_query, and the history of the former
+   memo-less-dependency stale value: both instances of C26_results_low *)
 Theorem C26_example_results :
   (calls_below prog_cl rank_cl /\ (forall q, (rank_cl q < FUEL)%nat) /\
    persisted_closed prog_cl Examples.pfam /\
@@ -418,9 +460,11 @@ Theorem C26_example_results :
   (results_ok prog_pq Examples.noeq Examples.pfam [] nolru FUEL FUEL FUEL (pinit Examples.iv (fun _ => 0) nolru) ops_nr /\
    snd (run prog_pq [] nolru ops_nr) = [POk 2; POk 0; POk 0; POk 8; POk 0; POk 0; POk 0; POk 7]) /\
   (let r := run prog_pq [] nolru ops_flat in
+   results_ok prog_pq Examples.noeq Examples.pfam [] nolru FUEL FUEL FUEL (pinit Examples.iv (fun _ => 0) nolru) ops_flat /\
    snd r = [POk 2; POk 0; POk 0; POk 2; POk 0; POk 8; POk 7; POk 0; POk 0; POk 0; POk 8; POk 0; POk 8] /\
-   wf_ops false false ops_flat /\ ~ persisted_closed prog_pq Examples.pfam).
-Proof. exact (conj ex_cl_hyps (conj ex_cl_results (conj ex_nr_results ex_flat_results))). Qed.
+   Forall low_op ops_flat /\ wf_ops false false ops_flat /\ ~ persisted_closed prog_pq Examples.pfam) /\
+  results_ok prog_f4 Examples.noeq Examples.pfam [1] lru2 FUEL FUEL FUEL (pinit Examples.iv (fun _ => 0) lru2) ops_f4.
+Proof. exact (conj ex_cl_hyps (conj ex_cl_results (conj ex_nr_results (conj ex_flat_results ex_f4_results)))). Qed.
 Check C26_example_results :
   (calls_below prog_cl rank_cl /\ (forall q, (rank_cl q < FUEL)%nat) /\
    persisted_closed prog_cl Examples.pfam /\
@@ -432,12 +476,15 @@ Check C26_example_results :
   (results_ok prog_pq Examples.noeq Examples.pfam [] nolru FUEL FUEL FUEL (pinit Examples.iv (fun _ => 0) nolru) ops_nr /\
    snd (run prog_pq [] nolru ops_nr) = [POk 2; POk 0; POk 0; POk 8; POk 0; POk 0; POk 0; POk 7]) /\
   (let r := run prog_pq [] nolru ops_flat in
+   results_ok prog_pq Examples.noeq Examples.pfam [] nolru FUEL FUEL FUEL (pinit Examples.iv (fun _ => 0) nolru) ops_flat /\
    snd r = [POk 2; POk 0; POk 0; POk 2; POk 0; POk 8; POk 7; POk 0; POk 0; POk 0; POk 8; POk 0; POk 8] /\
-   wf_ops false false ops_flat /\ ~ persisted_closed prog_pq Examples.pfam).
+   Forall low_op ops_flat /\ wf_ops false false ops_flat /\ ~ persisted_closed prog_pq Examples.pfam) /\
+  results_ok prog_f4 Examples.noeq Examples.pfam [1] lru2 FUEL FUEL FUEL (pinit Examples.iv (fun _ => 0) lru2) ops_f4.
 Print Assumptions C26_example_results.
 
-(* the positive statement outside the known class without the extra hypothesis, kept visible
-   (NOT proved: restore when a persisted function calls a non-persisted one, see
-   Persist/Statement.v): *)
+(* the positive statement outside the known class without an extra hypothesis, kept visible.
+   PROVED: without restore (C26_results_no_restore), with persisted_closed (C26_results_partial),
+   with LOW durabilities (C26_results_low).  NOT proved: restore when a persisted function calls a
+   non-persisted one AND some durability is above LOW (see Persist/Statement.v): *)
 Check C26_results_full_statement : Prop.
 Print C26_results_full_statement.
